@@ -1220,6 +1220,118 @@ def gen_rich(rng):
     return '{out: %s}' % body
 
 
+# ---------------------------------------------------------------- object locals / asserts / layers
+# Programs that create ONE instance of an object built from 1-3 literal layers (each with object
+# locals, asserts and fields that share those locals, upper layers using super / +: / overriding) and
+# then read that single instance through several access paths in a random order.  Because there is one
+# instance, every binding position inside the layers (object locals, field values, call arguments in
+# asserts) may be evaluated at most once — these bases run with fields_once = True.
+
+def objloc_num(rng, names, d=1):
+    """a small numeric expression over the given names"""
+    r = rng.random()
+    if d <= 0 or r < 0.3 or not names:
+        if names and rng.random() < 0.7:
+            return rng.choice(names)
+        return str(rng.choice([0, 1, 2, 3, 7, 20]))
+    t = rng.choice(['(%s + %s)', '(%s * %s)', 'std.max(%s, %s)', '[%s, %s][0]', '(if %s >= %s then 1 else 2)',
+                    '(local t = %s; t + %s)', 'std.trace("inner", %s) + %s'])
+    return t % (objloc_num(rng, names, d - 1), objloc_num(rng, names, d - 1))
+
+
+def gen_objloc(rng):
+    nlayers = rng.choice([1, 1, 2, 2, 3])
+    layers = []
+    all_fields = []          # (name, kind) kind in lit / comp
+    lower_fields = []        # numeric fields of lower layers (for super)
+    for li in range(1, nlayers + 1):
+        members = []
+        locs = []
+        nloc = rng.choice([1, 1, 2, 3])
+        for j in range(nloc):
+            x = 'x%d%s' % (li, 'abc'[j])
+            avail = list(locs)
+            if rng.random() < 0.25 and all_fields:
+                nums = [f for f, k in all_fields if k != 'str']
+                if nums:
+                    avail.append('self.' + rng.choice(nums))
+            if li > 1 and lower_fields and rng.random() < 0.25:
+                avail.append('super.' + rng.choice(lower_fields))
+            members.append('local %s = %s' % (x, objloc_num(rng, avail, rng.choice([0, 1, 1, 2]))))
+            locs.append(x)
+        if rng.random() < 0.3:
+            members.append('local fn%d(z) = z + %s' % (li, rng.choice(locs)))
+            fn = 'fn%d' % li
+        else:
+            fn = None
+        # asserts: mostly true, over locals (often the same local several times) and fields
+        for _ in range(rng.choice([0, 1, 1, 2, 3])):
+            a, b = rng.choice(locs), rng.choice(locs)
+            cond = rng.choice(['%s > -1000' % a, '%s + %s != 123457' % (a, b), 'std.isNumber(%s)' % a,
+                               '%s == %s' % (a, a), 'std.length([%s, %s]) == 2' % (a, b),
+                               '%s >= 0 || %s < 0' % (a, b)])
+            if rng.random() < 0.04:
+                cond = '%s < -1000' % a
+            msg = rng.choice(['', ' : "assert-%d"' % li, ' : "v=" + %s' % b])
+            members.append('assert %s%s' % (cond, msg))
+        mine = []
+        overridden = []
+        nf = rng.choice([2, 3, 4])
+        for j in range(nf):
+            r = rng.random()
+            vis = rng.choice([':', ':', ':', '::'])
+            if r < 0.3:
+                f = 'k%d%d' % (li, j)
+                members.append('%s%s %s' % (f, vis, rng.choice(['0', '5', 'null', 'true', '"lit"', '[]'])))
+                mine.append((f, 'str'))
+            elif r < 0.85 or li == 1 or not lower_fields:
+                f = 'a%d%d' % (li, j)
+                names = list(locs) + ['self.' + g for g, k in mine if k == 'num']
+                body = objloc_num(rng, names, rng.choice([0, 1, 1]))
+                if rng.random() < 0.5:
+                    body = '%s * 2 + %s' % (rng.choice(locs), body)
+                if fn and rng.random() < 0.4:
+                    body = '%s(%s)' % (fn, body)
+                members.append('%s%s %s' % (f, vis, body))
+                mine.append((f, 'num'))
+            else:
+                cand = [g for g in lower_fields if g not in [m for m, _ in mine] and g not in overridden]
+                if not cand:
+                    continue
+                g = rng.choice(cand)
+                overridden.append(g)
+                how = rng.random()
+                if how < 0.4:
+                    members.append('%s+%s %s' % (g, vis, rng.choice(locs)))          # g+: x
+                elif how < 0.7:
+                    members.append('%s%s super.%s + %s' % (g, vis, g, rng.choice(locs)))
+                else:
+                    f = 'd%d%d' % (li, j)
+                    members.append('%s%s super.%s + %s' % (f, vis, g, rng.choice(locs)))
+                    mine.append((f, 'num'))
+        if rng.random() < 0.2:
+            members.append('inner%d: { local y = %s, assert y == y, v: y, w: y + 1 }' % (li, rng.choice(locs)))
+            mine.append(('inner%d' % li, 'str'))
+        rng.shuffle(members)
+        layers.append('{ ' + ', '.join(members) + ' }')
+        for f, k in mine:
+            if f not in [g for g, _ in all_fields]:
+                all_fields.append((f, k))
+        lower_fields += [f for f, k in mine if k == 'num' and f not in lower_fields]
+    if nlayers >= 2 and rng.random() < 0.3:
+        obj = layers[0] + ' ' + layers[1] + ''.join(' + ' + l for l in layers[2:])     # e { ... } form
+    else:
+        obj = ' + '.join(layers)
+    names = [f for f, _ in all_fields]
+    acc = []
+    for _ in range(rng.choice([2, 3, 3, 4, 5])):
+        f = rng.choice(names)
+        acc.append(rng.choice(['o.%s' % f, 'o.%s' % f, 'o.%s' % f, 'o["%s"]' % f, 'std.objectHas(o, "%s")' % f, '"%s" in o' % f,
+                               'std.length(o)', 'o', 'std.objectFields(o)', 'o == o', 'std.objectHasAll(o, "%s")' % f,
+                               'std.get(o, "%s")' % f, 'std.toString(o)', 'std.objectValues(o)']))
+    return 'local o = %s; [%s]' % (obj, ', '.join(acc))
+
+
 # =====================================================================================
 
 def load_corpus():
@@ -1314,7 +1426,7 @@ def check(run):
                 'counters, arrays/indexing, objects with self and hidden fields, if, error, +, ==, std.trace at ~75% of binding positions with a '
                 'unique message; ~30% of programs carry one deliberate failure; dead failing bindings/fields/arguments/branches everywhere); '
                 'non-trivial = distinct program in which at least one trace site is demanded.  Search: for every base program (ui-tests/pass '
-                'without imports, LazyCore programs, rich-template programs using std.map/foldl/sort keyF/comprehensions/super/$/asserts/tailstrict) '
+                'without imports, LazyCore programs, single-instance object programs (1-3 layers with object locals shared by asserts and fields, super/+:, read through literal/computed/inherited fields, objectHas, in, length, ==, manifestation in random order), rich-template programs using std.map/foldl/sort keyF/comprehensions/super/$/asserts/tailstrict) '
                 'sampled (site, rewrite kind) pairs; non-trivial = distinct (program, kind, site) whose rewritten program was evaluated and compared.')
     run.assume = ['the analyzer rejects unbound variables, self outside objects, repeated binder/parameter/field names (the model panics / takes the first match there)',
                   'numbers in the fragment are exact integers of magnitude <= 2^53 (beyond: reported OutOfFragment and skipped, counted)',
@@ -1345,17 +1457,22 @@ def check(run):
     # ---- Search (implementation only)
     bases = []
     for key, l in corpus:
-        if not l.startswith('K '):
+        if l.startswith('ONCE '):
+            bases.append(Base(key, l[5:].encode('utf-8'), True))     # a single-instance program: members count as once-able
+        elif not l.startswith('K '):
             bases.append(Base(key, l.encode('utf-8'), False))
     for rel, src in ui_pass_programs():
         bases.append(Base('ui-tests/pass/' + rel, src, False))
     n_ui = len(bases)
-    nl = 120 if quick else 3000
+    nl = 100 if quick else 3000
     for key, e, text, outside in progs[:nl]:
         bases.append(Base('lazycore-' + key, text.encode('utf-8'), True))
-    nr = 200 if quick else 5000
+    nr = 150 if quick else 5000
     for i in range(nr):
         bases.append(Base('rich-%d' % i, gen_rich(rng).encode('utf-8'), False))
+    no = 150 if quick else 6000
+    for i in range(no):
+        bases.append(Base('objloc-%d' % i, gen_objloc(rng).encode('utf-8'), True))
     used = metamorphic(run, bases, impl_exe, rng, 6 if quick else 20, 'S')
     run.count('S:base-programs', used)
     run.count('S:ui-tests-and-corpus-bases', n_ui)
